@@ -286,3 +286,26 @@ Variable N : V -> V.           (* normalisation *)
 Fixpoint thermal_loop (fs : list K) (psi : V) : V :=
   match fs with [] => psi | f :: rest => thermal_loop rest (N (mscale f (A psi))) end.
 End Thermal.
+
+(* ================================================================== C10: purified density operators ======== *)
+Section Purified.
+Variable K : CRing.
+(* MpDm.from_mps: mo[:, i, i, :] = ms[:, i, :]  (zero elsewhere) *)
+Definition from_mps_site (t : T3 K) : T4 K := fun l pu pd r => if Nat.eqb pu pd then t l pu r else r0 K.
+Definition from_mps (ts : list (nat * T3 K)) : list (nat * T4 K) := map (fun dt => (fst dt, from_mps_site (snd dt))) ts.
+
+(* Mps.ground_state(model, max_entangled=True): bond dimension one; an electronic site is |0>, a vibrational site with
+   pdim levels has all entries equal to c (1/sqrt(pdim) when normalised, 1 otherwise).  A site is None (electronic) or
+   Some c (vibrational with entry c). *)
+Definition me_site (w : option K) : T3 K :=
+  fun _ p _ => match w with None => if Nat.eqb p 0 then r1 K else r0 K | Some c => c end.
+Definition max_entangled_gs_mps (ws : list (option K)) : list (nat * T3 K) := map (fun w => (1%nat, me_site w)) ws.
+Definition max_entangled_gs (ws : list (option K)) : list (nat * T4 K) := from_mps (max_entangled_gs_mps ws).
+
+(* the constant on the diagonal: product of the vibrational entries, times [all electronic indices are 0] *)
+Fixpoint me_weight (ws : list (option K)) (s : list nat) : K :=
+  match ws, s with
+  | w :: ws', p :: s' => rmul K (match w with None => if Nat.eqb p 0 then r1 K else r0 K | Some c => c end) (me_weight ws' s')
+  | _, _ => r1 K
+  end.
+End Purified.
